@@ -8,7 +8,6 @@ package c05
 
 import (
 	"bytes"
-	"encoding/binary"
 	"encoding/json"
 	"fmt"
 	"log"
@@ -104,7 +103,7 @@ func scanStates(data []byte) []int {
 	return offs
 }
 
-func buildMaster(r *rand.Rand, path string, targetSize int, sessions int) (*master, error) {
+func buildMaster(r *rand.Rand, path string, targetSize int, sessions int, aimTries int, bigMax int) (*master, error) {
 	os.Remove(path)
 	real, err := dbhist.CreateReal(path, time.Hour) // only forced persists and Close write states
 	if err != nil {
@@ -114,6 +113,7 @@ func buildMaster(r *rand.Rand, path string, targetSize int, sessions int) (*mast
 	h.G.AvoidKnownC21 = true
 	h.G.NoCompositeFk = true
 	h.G.BigRecs = true
+	h.G.BigMax = bigMax
 	h.G.MaxRows = 40
 	h.G.TablePool = []string{"t0", "t1", "t2", "t3", "u0"}
 	h.SyncIndexBuild = true
@@ -180,19 +180,13 @@ func buildMaster(r *rand.Rand, path string, targetSize int, sessions int) (*mast
 			}
 		}
 		// aim a state record across a page boundary (the case that needs reads beyond the file end to be safe)
-		overhead := 0
-		straddles := 0
-		for try := 0; try < 40; try++ {
+		overhead, straddles, miss := 0, 0, 0
+		for try := 0; try < aimTries && h.M.Tables["zf"] != nil; try++ {
 			before := size()
-			// state offset within its page: the boundary falls into a different field each time
-			want := page - []int{3, 9, 11, 14, 18, 23, 27, 30, 34}[(fillerKey+s)%9]
-			fill := ((want-(before+overhead))%page + page) % page
-			if fill < 8 {
-				fill += page
-			}
-			if h.M.Tables["zf"] == nil {
-				break
-			}
+			// where in its page the state should start: the page boundary then falls into a
+			// different field of the state record each time
+			w := []int{3, 9, 11, 14, 18, 23, 27, 30, 34}[(straddles+miss/3+s)%9]
+			fill := (((-w-before-overhead)%page)+page)%page + 8
 			fillerKey++
 			row := dbhist.Row{{IsInt: true, I: 1000000 + fillerKey}, {S: strings.Repeat("f", fill)}}
 			res := h.DoTxn([]dbhist.Op{{Kind: "ins", Table: "zf", Row: row}}, "commit")
@@ -200,11 +194,13 @@ func buildMaster(r *rand.Rand, path string, targetSize int, sessions int) (*mast
 				break
 			}
 			st := h.Persist()
-			overhead = int(st.Off) - before - fill
+			overhead = int(st.Off) - before - (fill - 8)
 			if int(st.Off)%page > page-stateLen {
 				if straddles++; straddles >= 3 {
 					break
 				}
+			} else {
+				miss++
 			}
 		}
 		if err := closeSession(); err != nil {
@@ -269,7 +265,39 @@ func (m *master) inside(L int) string {
 	return "data"
 }
 
-func tailBytes(c crashCase, seed uint64) []byte {
+// forgedTail: "garbage" that looks like a state record: the bytes of an older state of the
+// same file with one bit of its time field flipped (so its checksum is wrong), optionally
+// followed by a shutdown marker. Only the checksum tells it from a real state.
+func forgedTail(m *master, data []byte, c crashCase, r *rand.Rand) []byte {
+	exp := m.expectedState(c.L)
+	if exp < 0 {
+		return nil
+	}
+	src := exp
+	if exp > 0 {
+		src = r.IntN(exp) // an older one, so that accepting it shows
+	}
+	var b []byte
+	for n := r.IntN(20); n > 0; n-- {
+		b = append(b, byte(1+r.IntN(255)))
+	}
+	o := int(m.States[src].Off)
+	st := append([]byte{}, data[o:o+stateLen]...)
+	st[15] ^= 1
+	b = append(b, st...)
+	if c.Mode == "forgedmarker" {
+		b = append(b, shutdown...)
+	}
+	return b
+}
+
+func tailBytes(m *master, data []byte, c crashCase, seed uint64) []byte {
+	if c.Mode == "forged" || c.Mode == "forgedmarker" {
+		r := rand.New(rand.NewPCG(seed, uint64(c.L)*2654435761+11))
+		if b := forgedTail(m, data, c, r); b != nil {
+			return b
+		}
+	}
 	switch c.Mode {
 	case "absent":
 		return nil
@@ -374,7 +402,7 @@ func runCase(m *master, data []byte, c crashCase, file string) (res caseResult) 
 		detail["log"] = vk.Trunc(logBuf.String(), 1500)
 		res.Findings = append(res.Findings, finding{class, detail})
 	}
-	content := append(append([]byte{}, data[:c.L]...), tailBytes(c, uint64(m.Size))...)
+	content := append(append([]byte{}, data[:c.L]...), tailBytes(m, data, c, uint64(m.Size))...)
 	if err := os.WriteFile(file, content, 0o644); err != nil {
 		add("C05/harness/write-failed", map[string]any{"error": err.Error()})
 		return
@@ -580,15 +608,13 @@ func TestVerifC05(t *testing.T) {
 	dbhist.Setup()
 	dir := filepath.Join(vk.OutDir(), fmt.Sprintf("c05-%d", vk.Shard()))
 	os.MkdirAll(dir, 0o755)
-	if os.Getenv("VERIF_C05_DEBUG") == "" {
-		defer os.RemoveAll(dir)
-	}
+	defer os.RemoveAll(dir)
 
 	// 1. this child's own database: boundary and sampled offsets
 	r := vk.Rand(5)
 	sizes := []int{20000, 40000, 150000, 60000, 90000, 25000, 120000, 30000}
 	target := sizes[vk.Shard()%len(sizes)]
-	m, err := buildMaster(r, filepath.Join(dir, "own.db"), target, 2+vk.Shard()%2)
+	m, err := buildMaster(r, filepath.Join(dir, "own.db"), target, 2+vk.Shard()%2, 10, 0)
 	if err != nil {
 		rep.Violate("C05/harness/build-failed", fmt.Sprint("shard ", vk.Shard()), err.Error())
 		return
@@ -604,7 +630,7 @@ func TestVerifC05(t *testing.T) {
 		var em *master
 		if vk.Shard() == 0 {
 			os.MkdirAll(shared, 0o755)
-			em, err = buildMaster(rand.New(rand.NewPCG(uint64(vk.Seed()), 505)), filepath.Join(shared, "exh.db"), 22000, 2)
+			em, err = buildMaster(rand.New(rand.NewPCG(uint64(vk.Seed()), 505)), filepath.Join(shared, "exh.db"), 21000, 2, 3, 700)
 			if err != nil {
 				rep.Violate("C05/harness/build-failed", "exhaustive", err.Error())
 				return
@@ -636,8 +662,8 @@ func TestVerifC05(t *testing.T) {
 		}
 		var ec []crashCase
 		for L := vk.Shard(); L <= em.Size; L += vk.NShards() {
-			ec = append(ec, crashCase{L, "absent", "startup"}, crashCase{L, "absent", "action"},
-				crashCase{L, "zero", "startup"}, crashCase{L, "garbage", []string{"startup", "action"}[L%2]})
+			ec = append(ec, crashCase{L, "absent", "startup"}, crashCase{L, "absent", "action"}, crashCase{L, "zero", "startup"},
+				[]crashCase{{L, "garbage", "startup"}, {L, "garbage", "action"}, {L, "forged", "startup"}, {L, "forgedmarker", "startup"}}[L/vk.NShards()%4])
 		}
 		rep.Count("exhaustive_cases", len(ec))
 		if runCases(rep, em, ec, dir) {
@@ -712,7 +738,7 @@ func boundaryCases(m *master, r *rand.Rand, budget int) []crashCase {
 		pages = append(pages, p-1, p, p+1)
 	}
 	r.Shuffle(len(pages), func(i, j int) { pages[i], pages[j] = pages[j], pages[i] })
-	nOffsets := budget / 4
+	nOffsets := budget * 3 / 13
 	// interleave: boundaries, pages, random
 	var offs []int
 	offs = append(offs, must...)
@@ -739,6 +765,9 @@ func boundaryCases(m *master, r *rand.Rand, budget int) []crashCase {
 		}
 		cases = append(cases, crashCase{L, "absent", "startup"}, crashCase{L, "absent", "action"},
 			crashCase{L, "zero", "startup"}, crashCase{L, third, []string{"startup", "action"}[i%2]})
+		if i%3 == 0 {
+			cases = append(cases, crashCase{L, []string{"forged", "forgedmarker"}[i/3%2], "startup"})
+		}
 	}
 	return cases
 }
@@ -860,10 +889,6 @@ func runBatch(m *master, metaFile string, part []crashCase, from int, dir string
 }
 
 func record(rep *vk.Report, m *master, res caseResult) {
-	if os.Getenv("VERIF_C05_DEBUG") != "" && res.InsideWhat == "page-aligned-in-state" {
-		b, _ := json.Marshal(res)
-		fmt.Println("DEBUG", string(b))
-	}
 	rep.Eval(vk.Hash64(m.Size, res.L, res.Mode), res.Kind != "clean-open")
 	rep.Count("cases_"+res.Mode, 1)
 	rep.Count("outcome_"+res.Kind, 1)
@@ -882,4 +907,3 @@ func record(rep *vk.Report, m *master, res caseResult) {
 	}
 }
 
-var _ = binary.BigEndian
